@@ -336,7 +336,7 @@ mut("a-c16-first-line-of-range-end", "C16", "C16.R9", (LS, "        find_line(li
 mut("a-c16-line-start-pausing", "C16", "C16.R9", (LS, "let line_start = find_prev_line_break_pos(content, bytes, start, false)", "let line_start = find_prev_line_break_pos(content, bytes, start, true)"))
 mut("a-c02-insertion-by-end", "C02", "C02.R3c", (FM, "if range.start < new_range.start {", "if range.end < new_range.start {"))
 mut("a-c02-insertion-one-too-far", "C02", "C02.R3c", (FM, "None => ranges.insert(0, new_range),", "None => ranges.insert(1, new_range),"))
-mut("a-c02-scanner-never-moves", "C02", "C02.R4", (CP, "        cursor += 1;\n", ""))
+mut("a-c01-scanner-never-moves", "C01", "C01.T", (CP, "        cursor += 1;\n", ""))
 mut("a-c07-one-byte-piece-dropped", "C07", "C07.R8", (TK, "if (byte_pos - byte_start_pos) > 0 {", "if (byte_pos - byte_start_pos) > 1 {"))
 mut("a-c07-token-inserted-in-front", "C07", "C07.R8", (TK, "                    tokens.push(Token {", "                    tokens.insert(0, Token {"))
 mut("a-c12-walk-beyond-the-block", "C12", "C12.R6", (BI, "                    if pos > end_byte_pos {\n                        break;\n                    }\n", ""))
@@ -351,6 +351,9 @@ mut("a3-c16-first-highlighted-line-lost", "C16", "C16.R9", (LS, "            .li
 mut("a3-c16-pretty-skips-first-item", "C16", "C16.R2", (LS, "    let mut output: String = markers\n        .iter()\n", "    let mut output: String = markers\n        .iter().skip(1)\n"))
 mut("a3-c12-no-block-formatter-asked", "C12", "C12.R7", (FM, "let ranges = structure_formatters.iter().fold(vec![], |mut v, f| {", "let ranges = structure_formatters.iter().skip(1).fold(vec![], |mut v, f| {"))
 mut("a3-c12-new-ranges-never-merged", "C12", "C12.R7", (FM, "    while !new_ranges.is_empty() {", "    while !new_ranges.len() == 1 {"))
+# operator set 4 of the audit: a guard block removed as a whole
+mut("a4-c02-search-never-stops", "C02", "C02.R3c", (FM, "                        if range.start < new_range.start {\n                            break Some(cursor);\n                        }\n", ""))
+mut("a4-c13-found-not-returned", "C13", "C13.R9", (IR, "        if found {\n            return (cursor, byte_pos);\n        }\n", ""))
 mut("a-c17-cursor-starts-at-1", "C17", "C17.R4", (RM, "        let mut range_cursor = 0;", "        let mut range_cursor = 1;"))
 mut("a-c17-touching-pending-first", "C17", "C17.R4", (RM, "                if pending_range.start >= range.end {", "                if pending_range.start > range.end {"))
 mut("a-c17-inside-left-for-later", "C17", "C17.R4", (RM, "                if pending_range.start >= range.end {", "                if pending_range.start >= range.start {"))
